@@ -56,12 +56,21 @@ fn nearly_full(spare: usize) -> BytesMut {
     b.extend_from_slice(&vec![0xEE; b.capacity() - spare]);
     b
 }
+/// a Vec<u8> that already holds other bytes, with `spare` bytes of capacity left: what is in the sink must not matter
+fn used_vec(spare: usize) -> Vec<u8> {
+    let mut v: Vec<u8> = Vec::with_capacity(16);
+    v.extend_from_slice(&[0xFF, 0x80, 0xFE, 0x81, 0x00, 0x7F]);
+    v.reserve_exact(spare);
+    v
+}
 fn spare_ok_u(x: u32, want: &[u8]) -> bool {
     (0..=5).all(|s| {
         let mut b = nearly_full(s);
         let p = b.len();
         b.write_var_u32(x);
-        b[p..] == *want
+        let mut v = used_vec(s);
+        v.write_var_u32(x);
+        b[p..] == *want && v[..6] == [0xFF, 0x80, 0xFE, 0x81, 0x00, 0x7F] && v[6..] == *want && b[..p].iter().all(|y| *y == 0xEE)
     })
 }
 fn spare_ok_i(x: i32, want: &[u8]) -> bool {
@@ -69,7 +78,9 @@ fn spare_ok_i(x: i32, want: &[u8]) -> bool {
         let mut b = nearly_full(s);
         let p = b.len();
         b.write_var_i32(x);
-        b[p..] == *want
+        let mut v = used_vec(s);
+        v.write_var_i32(x);
+        b[p..] == *want && v[..6] == [0xFF, 0x80, 0xFE, 0x81, 0x00, 0x7F] && v[6..] == *want && b[..p].iter().all(|y| *y == 0xEE)
     })
 }
 fn enc_all_u(x: u32) -> [Vec<u8>; 4] {
